@@ -1,18 +1,28 @@
 """C01 — hard box bounds are never left."""
-from harness import runlevel as R, skel as S
+from harness import comp_grid as G, runlevel as R, skel as S
 
-PROPS = "Props/C01.v"
-TRANSLATORS = ["transform"]
-THEOREMS = ["C01_original_space_clamp", "C01_filter_output_in_hard_box", "C01_search_box_inside", "C01_calls_are_oracle_points", "C01_internal_points_in_box"]
+PROPS = ["Props/C01.v", "Props/C01grid.v"]
+TRANSLATORS = ["transform", "grid"]
+THEOREMS = ["C01_original_space_clamp", "C01_filter_output_in_hard_box", "C01_search_box_inside", "C01_calls_are_oracle_points", "C01_internal_points_in_box",
+            # Props/C01grid.v: about gen/Src_grid.v (force_to_grid, _update_search_bounds_, the gridised + nudged x0 of _init_optim_state_)
+            "C01_force_to_grid", "C01_search_box_extreme_grid_points", "C01_search_box_nonempty_iff", "C01_search_box_nonempty_refuted",
+            "C01_search_box_sites_agree", "C01_search_box_within_hard_box", "C01_start_nudged_in_box", "C01_start_recheck_exact",
+            "C01_start_in_box_unit_geometry", "C01_start_no_nudge_unit_geometry", "C01_start_nudged_in_any_box_refuted", "C01_hand_model_is_source"]
 ALLOWED_AXIOMS = ["ClassicalDedekindReals.sig_forall_dec", "ClassicalDedekindReals.sig_not_dec",
                   "FunctionalExtensionality.functional_extensionality_dep", "Classical_Prop.classic"]
 LEVEL = "proof"
 RULE = ("real runs over the panel (D 1-4; linear / log-transformed / unbounded / mixed / tight boxes; optimum inside, on and OUTSIDE the box pressing on a face; x0 given / absent / on a bound; "
         "all noise modes; constraints) compared with the skeleton model; the premises of C01_internal_points_in_box (provenance of every evaluated point from a recorded filter output, "
         "filter boxes within the hard box, recorded rows in the box) evaluated in Coq on every run; independent monitor on every target/constraint argument, result.x and the log; "
-        "non-trivial = some evaluated point lies on a face of the box")
+        "non-trivial = some evaluated point lies on a face of the box.  GRID ARITHMETIC (harness/comp_grid.py): force_to_grid, _update_search_bounds_ and the located statements of "
+        "_init_optim_state_ / the loop head of optimize() are executed for real on generated meshes 2^-40..2^3, points on / next to grid points and rounding ties, boxes wide, exactly one step, "
+        "narrower than a step (with and without a grid point), degenerate, infinite and huge bounds; compared EXACTLY with the translated definitions (Python Fractions and Coq vm_compute); "
+        "real BADS objects and every projected filter call of the recorded runs are compared too")
 TRUSTED = ["Coq 8.16.1 kernel + vm_compute", "hand-written models Model/Skeleton.v, Model/Filter.v tied to the code by differential correspondence",
            "translate/transform.py regenerates the clamp expressions of variables_transformer.py on every run (C01_original_space_clamp is about them); standard real-number axioms for that theorem only",
+           "translate/grid.py regenerates force_to_grid, _update_search_bounds_ and the search-box / starting-point statements of _init_optim_state_ and optimize() on every run (gen/Src_grid.v; fail-closed ast "
+           "whitelist; per-coordinate reading of masked array assignments, documented in its header); validated each run against the real code exactly (Fractions, Coq vm_compute)",
+           "binary64 computes x/2^k, np.round, 2^k*r and the +-mesh step exactly for |x|/mesh < 2^52 and no overflow of x/mesh (the Q reading is exact there: checked on every generated input, not proved)",
            "NumPy minimum/maximum on binary64 implement the order-theoretic clamp for non-NaN values (trusted); NaN-freedom of ginv results is only monitored at run level",
            "the logger passes exactly inverse_transf(u) to the target (recorded bitwise by the tie: calls[i].xo vs the transformer's output)"]
 ASSUMPTIONS = ["valid problem (C08): lb <= plb < pub <= ub"]
@@ -51,10 +61,15 @@ def tie(ctx, broken):
     bad = [tr["spec"] for tr, P in out if "final" in tr and any(a != b for a, b in zip([c["xo"] for c in tr["calls"] if c.get("newrow")], tr["final"]["logXo"]))]
     if not ctx.oblige("logged_original_points_are_the_target_arguments", "correspondence", not bad, str(bad[:2])):
         broken.append(("logged_original_points", f"X_orig rows differ from the arguments passed to the target: {bad[:2]}"))
+    # the grid arithmetic regenerated from the source (gen/Src_grid.v) against the real code: components, real objects, these runs
+    G.tie_grid(ctx, broken, traces=[tr for tr, _ in out])
 
 
 def search(ctx, broken):
+    found = G.search_grid(ctx, broken) if any("grid" in b[0] or b[0] == "coq_build" for b in broken) else False
     if R.truncate_search(ctx, R.mon_c01):
+        return True
+    if found:
         return True
     specs = [s for s in S.panel("thorough", ctx.seed + 41)][:48]
     out = [(tr, None) for tr in S.traces([(s, None) for s in specs], "c01s")]
@@ -62,4 +77,6 @@ def search(ctx, broken):
 
 
 def replay(ctx, rp):
+    if str(rp.get("key", "")).startswith("grid:"):
+        return G.replay_grid(ctx, rp)
     return R.generic_replay(ctx, rp, [R.mon_c01])
